@@ -183,7 +183,7 @@ func (d *V1) classify(err error, o *Outcome) {
 }
 
 func (d *V1) keepIn(id int, label string, v any) {
-	if !d.retain || v == nil {
+	if !d.retain || v == nil || id < 0 {
 		return
 	}
 	r := d.kept[id]
@@ -195,7 +195,7 @@ func (d *V1) keepIn(id int, label string, v any) {
 }
 
 func (d *V1) keepOut(label string, v any) {
-	if !d.retain || v == nil {
+	if !d.retain || v == nil || curID < 0 {
 		return
 	}
 	r := d.kept[curID]
